@@ -57,6 +57,11 @@ CLAIM = ("On every generated stack the real HighLevelGraph.cull, Blockwise.cull,
 LEVEL_NOTE = "the unfused, fully materialised graph evaluated by dask.get is the reference; annotation rules restated in the harness"
 TECHNIQUE = "runtime monitoring: differential oracle (culled / fused vs full unfused graph), return-value contract on Blockwise.cull, annotation-lattice oracle"
 CASE_TIMEOUT = 120
+PENDING = {
+    "fused-annotations:fuse_roots:all-annotations-dropped":
+        "fuse_roots merges a Blockwise layer with its root layers (all carrying equal annotations) into a plain dict: "
+        "the merged layer has annotations None, every constraint (workers, resources, retries, priority) is dropped",
+}
 
 # ---- annotation lattice ---------------------------------------------------------------------------------------------
 LATTICE = {
@@ -94,7 +99,7 @@ def cases(tier, seed):
                 yield {"space": "exhaustive", "pseed": 1000 + n, "nops": n, "dtype": "int64", "anns": anns, "chain_only": True,
                        "shape": [4, 4], "chunks": [[2, 2], [1, 3]], "root": "ones", "lat": key}
     # ---- random stacks ---------------------------------------------------------------------------------------------------
-    n = 1500 if tier == "quick" else 22000
+    n = 1200 if tier == "quick" else 20000
     for i in range(n):
         nops = rng.choice((2, 2, 3, 3, 4, 4, 5, 6))
         mode = rng.random()
@@ -128,27 +133,27 @@ def _subsets(keys, rng, limit_all=6, nrand=10):
 
 
 def _feat(trace):
-    """input-feature predicate of a stack for labels: which step families occur (no seeds, no sizes)"""
+    """input-feature predicate of a stack for labels: the first of a fixed priority list of step families that
+    occurs in the stack (one label per mechanism; no seeds, sizes or conjunctions of incidental features)"""
     t = {s.split(":")[0] for s in trace}
-    f = []
+    if t & {"addT", "bw_twice", "bw_twice_tfirst", "tensordot", "outer"}:
+        return "same-input-twice"
     if t & {"cat_matmul", "cat_sumlast", "drop_mb"}:
-        f.append("concatenate")
-    if t & {"list_matmul", "list_sumlast", "tensordot", "tensordot_root"}:
-        f.append("contraction")
-    if t & {"addT", "bw_twice", "bw_twice_tfirst"}:
-        f.append("same-input-twice")
-    if t & {"T", "transpose"}:
-        f.append("transpose")
+        return "contraction-concatenate"
+    if t & {"list_matmul", "list_sumlast", "tensordot_root"}:
+        return "contraction"
     if t & {"newaxis_mb", "tile", "tile_chunks"}:
-        f.append("new-axes")
-    if t & {"bcast_vec", "bcast_col", "outer"}:
-        f.append("broadcast")
-    if t & {"blockid", "blockinfo"} or any(s in ("root:ones", "root:full", "root:blockid_root", "root:arrlike", "root:arrlike_inline") for s in trace):
-        f.append("io-deps")
-    return "&".join(f) or "elementwise"
+        return "new-axes"
+    if t & {"bcast_vec", "bcast_col"}:
+        return "broadcast"
+    if t & {"T", "transpose"}:
+        return "transpose"
+    if t & {"blockid", "blockinfo"} or any(s.startswith("root:") and s != "root:np" for s in trace):
+        return "io-deps"
+    return "elementwise"
 
 
-def _layer_feat(layer):
+def _layer_feats(layer):
     f = []
     out = set(layer.output_indices)
     ins = [ind for _, ind in layer.indices if ind is not None]
@@ -168,7 +173,12 @@ def _layer_feat(layer):
         f.append("literal-args")
     if layer.output_blocks:
         f.append("culled-before")
-    return "&".join(f) or "plain"
+    return f or ["plain"]
+
+
+def _layer_feat(layer):
+    """primary feature of a Blockwise layer (first of the fixed priority list above) for labels"""
+    return _layer_feats(layer)[0]
 
 
 def _expected_ann(anns):
@@ -315,6 +325,12 @@ def run_case(case, ctx):
     if o is not None and case.get("anns"):
         _check_annotations(ctx, h, o, absorbed, st, case)
 
+    if case.get("lat"):  # annotation-lattice cases: one fixed chain, the cull facets were observed on it once already
+        ctx.sample = {"trace": st.trace, "annotations": case.get("anns"),
+                      "fused": [l.annotations for l in (o.layers.values() if o is not None else [])]}
+        if case["anns"] != [None] * len(case["anns"]):
+            return
+
     # ---- facet 1: HighLevelGraph.cull ----------------------------------------------------------------------------------
     subsets, complete = _subsets(keys, rng)
     if complete:
@@ -379,7 +395,7 @@ def _check_layer_cull(ctx, L, allkeys, rng, st, origin, depth=0):
             ctx.exception(ex, prefix="blockwise-cull:" + lf, trace=st.trace, layer=repr(L)[:300])
             return
         ctx.count("layer_cull_checked")
-        ctx.distinct("layer_features", lf)
+        ctx.distinct("layer_features", _layer_feats(L))
         if not set(K) <= set(mat):
             ctx.violation("blockwise-cull:%s:requested-key-missing-from-culled-layer" % lf,
                           "asked %r, culled layer has %r" % (sorted(K, key=repr), sorted(mat, key=repr)), layer=repr(L)[:300], trace=st.trace)
@@ -429,19 +445,24 @@ def _groups(h, o, absorbed):
             dependents.setdefault(d, set()).add(n)
     groups = {n: [n] for n in o.layers if n in h.layers}
     ambiguous = 0
+    absorbed_set = set(absorbed)
     for n in absorbed:
-        cur, hops = n, 0
-        while cur not in o.layers and hops < 50:
-            ds = dependents.get(cur, ())
-            if len(ds) != 1:
-                cur = None
-                break
-            cur = next(iter(ds))
-            hops += 1
-        if cur is None or cur not in groups:
-            ambiguous += 1
+        tops, seen, work = set(), set(), [n]
+        while work:
+            cur = work.pop()
+            for d in dependents.get(cur, ()):
+                if d in absorbed_set:
+                    if d not in seen:
+                        seen.add(d)
+                        work.append(d)
+                else:
+                    tops.add(d)
+        if len(tops) == 1 and next(iter(tops)) in groups:
+            groups[next(iter(tops))].append(n)
         else:
-            groups[cur].append(n)
+            ambiguous += 1
+            for t in tops:  # a group with an unresolved member is not judged
+                groups.pop(t, None)
     return groups, ambiguous
 
 
